@@ -206,14 +206,14 @@ def encPayload (c : CryptoOps) (s : ObjState) (n : Nat) (chunk : Bytes) : Bytes 
 def fullBlock (n : Nat) (nextHash payload : Bytes) : Bytes := u32 n ++ nextHash ++ payload
 
 /-- `process_cmd_blocks_to_export`: the blocks are processed from the last one backwards, each embedding the
-    running `final_hash`; returns (`final_hash` afterwards = hash of the first block, all blocks in file order).
-    `start` is the value of `final_hash` when the last block is processed. -/
-def buildChain (c : CryptoOps) (s : ObjState) (start : Bytes) : Nat → List Bytes → Bytes × Bytes
+    running `final_hash`; returns (`final_hash` afterwards = hash of the first block, the processed blocks in
+    file order).  `start` is the value of `final_hash` when the last block is processed. -/
+def buildChain (c : CryptoOps) (s : ObjState) (start : Bytes) : Nat → List Bytes → Bytes × List Bytes
   | _, [] => (start, [])
   | n, b :: bs =>
     let r := buildChain c s start (n + 1) bs
     let full := fullBlock n r.1 (encPayload c s n b)
-    (c.hash (hashAlgOf s.cfg.hashLen) full, full ++ r.2)
+    (c.hash (hashAlgOf s.cfg.hashLen) full, full :: r.2)
 
 structure Header where
   flags : Nat
@@ -251,7 +251,7 @@ def exportSb (c : CryptoOps) (s : ObjState) (r : Rand) : ObjState × Bytes :=
   let total := Sb31Consts.updTotalLength s.totalLength h s.cfg.cert.length
   let signed := encHeader (headerOf s bc total) ++ chain.1 ++ s.cfg.cert
   let sig := c.sign (sigAlgOf h) s.cfg.sk signed r
-  ({ s with blockCount := bc, totalLength := total, finalHash := chain.1 }, signed ++ sig ++ chain.2)
+  ({ s with blockCount := bc, totalLength := total, finalHash := chain.1 }, signed ++ sig ++ chain.2.flatten)
 
 /-- the fields `pack` refuses (struct.error) -/
 def exportable (s : ObjState) : Bool :=
@@ -330,71 +330,65 @@ def takeWordRes3 (b : Bytes) : R (Nat × Bytes) := do
   pure (w, b)
 
 def parseCmd (b : Bytes) : R (Cmd × Bytes) := do
-  let tag := leDec ((b.drop 12).take 4)
   let (magic, b) ← takeU 4 b
   check (magic == 0x55AAAA55) .cmdMagic
-  if tag == 10 then
-    -- LOAD_KEY_BLOB: 16-bit offset, 16-bit key wrap id, 32-bit length
-    let (off, b) ← takeU 2 b
-    let (kw, b) ← takeU 2 b
-    let (len, b) ← takeU 4 b
-    let (_, b) ← takeU 4 b
-    let (d, b) ← takeData len b
-    pure (.loadKeyBlob off d kw, b)
-  else
-    let (w1, b) ← takeU 4 b
-    let (w2, b) ← takeU 4 b
-    let (_, b) ← takeU 4 b
-    if tag == 1 then
-      let (m, b) ← takeWordRes3 b
-      pure (.erase w1 w2 m, b)
-    else if tag == 2 then
-      let (m, b) ← takeWordRes3 b
-      let (d, b) ← takeData w2 b
-      pure (.load w1 d m, b)
-    else if tag == 3 then
-      check (w2 == 0) .cmdReserved
-      pure (.execute w1, b)
-    else if tag == 4 then
-      check (w2 == 0) .cmdReserved
-      pure (.call w1, b)
-    else if tag == 5 then
-      -- PROGRAM_FUSES: the length counts 32-bit words
-      let (d, b) ← takeData (4 * w2) b
-      pure (.progFuses w1 d, b)
-    else if tag == 6 then
-      let (d, b) ← takeData w2 b
-      pure (.progIfr w1 d, b)
-    else if tag == 7 then
-      let (m, b) ← takeWordRes3 b
-      let (d, b) ← takeData w2 b
-      pure (.loadCmac w1 d m, b)
-    else if tag == 8 then
-      let (dst, b) ← takeU 4 b
-      let (mf, b) ← takeU 4 b
-      let (mt, b) ← takeU 4 b
-      let (r, b) ← takeU 4 b
-      check (r == 0) .cmdReserved
-      pure (.copy w1 w2 dst mf mt, b)
-    else if tag == 9 then
-      -- LOAD_HASH_LOCKING: a load followed by 64 reserved bytes (the device fills in the hash)
-      let (m, b) ← takeWordRes3 b
-      let (d, b) ← takeData w2 b
-      let (r, b) ← takeB 64 b
-      check (allZero r) .cmdReserved
-      pure (.loadHashLocking w1 d m, b)
-    else if tag == 11 then
-      -- CONFIGURE_MEMORY: word1 = memory id, word2 = address of the configuration
-      pure (.configureMemory w2 w1, b)
-    else if tag == 12 then
-      let (p, b) ← takeWordRes3 b
-      pure (.fillMemory w1 w2 p, b)
-    else if tag == 13 then
-      pure (.fwVersionCheck w1 w2, b)
-    else if tag == 14 then
-      check (w1 == 0 && w2 == 0) .cmdReserved
-      pure (.reset, b)
-    else throw .cmdTag
+  let (w1, b) ← takeU 4 b
+  let (w2, b) ← takeU 4 b
+  let (tag, b) ← takeU 4 b
+  if tag == 1 then
+    let (m, b) ← takeWordRes3 b
+    pure (.erase w1 w2 m, b)
+  else if tag == 2 then
+    let (m, b) ← takeWordRes3 b
+    let (d, b) ← takeData w2 b
+    pure (.load w1 d m, b)
+  else if tag == 3 then
+    check (w2 == 0) .cmdReserved
+    pure (.execute w1, b)
+  else if tag == 4 then
+    check (w2 == 0) .cmdReserved
+    pure (.call w1, b)
+  else if tag == 5 then
+    -- PROGRAM_FUSES: the length counts 32-bit words
+    let (d, b) ← takeData (4 * w2) b
+    pure (.progFuses w1 d, b)
+  else if tag == 6 then
+    let (d, b) ← takeData w2 b
+    pure (.progIfr w1 d, b)
+  else if tag == 7 then
+    let (m, b) ← takeWordRes3 b
+    let (d, b) ← takeData w2 b
+    pure (.loadCmac w1 d m, b)
+  else if tag == 8 then
+    let (dst, b) ← takeU 4 b
+    let (mf, b) ← takeU 4 b
+    let (mt, b) ← takeU 4 b
+    let (r, b) ← takeU 4 b
+    check (r == 0) .cmdReserved
+    pure (.copy w1 w2 dst mf mt, b)
+  else if tag == 9 then
+    -- LOAD_HASH_LOCKING: a load followed by 64 reserved bytes (the device fills in the hash)
+    let (m, b) ← takeWordRes3 b
+    let (d, b) ← takeData w2 b
+    let (r, b) ← takeB 64 b
+    check (allZero r) .cmdReserved
+    pure (.loadHashLocking w1 d m, b)
+  else if tag == 10 then
+    -- LOAD_KEY_BLOB: word1 = 16-bit offset | 16-bit key wrap id << 16, word2 = length
+    let (d, b) ← takeData w2 b
+    pure (.loadKeyBlob (w1 % 65536) d (w1 / 65536), b)
+  else if tag == 11 then
+    -- CONFIGURE_MEMORY: word1 = memory id, word2 = address of the configuration
+    pure (.configureMemory w2 w1, b)
+  else if tag == 12 then
+    let (p, b) ← takeWordRes3 b
+    pure (.fillMemory w1 w2 p, b)
+  else if tag == 13 then
+    pure (.fwVersionCheck w1 w2, b)
+  else if tag == 14 then
+    check (w1 == 0 && w2 == 0) .cmdReserved
+    pure (.reset, b)
+  else throw .cmdTag
 
 def parseCmds : Nat → Bytes → R (List Cmd)
   | 0, b => if b.isEmpty then pure [] else throw .fuel
@@ -532,31 +526,47 @@ structure RomOk where
   obligations : List SigOb
   deriving DecidableEq, Repr
 
-def romLoad (c : CryptoOps) (dev : Dev) (file : Bytes) : R RomOk := do
+/-- what block 0 (header | hash of block 1 | certificate block | signature) yields -/
+structure Block0 where
+  hdr : Header
+  hl : Nat            -- hash length = coordinate length of the signing key
+  h1 : Bytes          -- expected hash of data block 1
+  obs : List SigOb
+  rest : Bytes        -- the data blocks
+  deriving DecidableEq, Repr
+
+/-- block size = 4 (number) + hash length + 256 (payload); SHA-256 or SHA-384 -/
+def hashLenOfBlockSize (bs : Nat) : R Nat :=
+  if bs = 292 then pure 32 else if bs = 308 then pure 48 else throw .blockSize
+
+def parseBlock0 (c : CryptoOps) (rotkh : Bytes) (file : Bytes) : R Block0 := do
   let (hdr, b) ← parseHeader file
-  let hl ← if hdr.blockSize = 292 then pure 32 else if hdr.blockSize = 308 then pure 48 else throw .blockSize
-  let alg := algOfCoord hl
+  let hl ← hashLenOfBlockSize hdr.blockSize
   check (hdr.certOffset == 60 + hl) .certOffset
   check (hdr.imageType == 6 || hdr.imageType == 7) .imageType
   check (1 ≤ hdr.blockCount) .blockCount
   -- block 0 = header | hash of block 1 | certificate block | signature ; its length is `totalLength`
   let (h1, b) ← takeB hl b
-  check (60 + hl + 12 + 2 * hl ≤ hdr.totalLength) .totalLength
+  check (60 + hl + 2 * hl ≤ hdr.totalLength) .totalLength
   let signedLen := hdr.totalLength - 2 * hl
   let (cert, b) ← takeB (signedLen - (60 + hl)) b
   let (sig, b) ← takeB (2 * hl) b
-  let (ci, obs) ← romCert c dev.rotkh cert
+  let (ci, obs) ← romCert c rotkh cert
   check (ci.coord == hl) .curveMismatch
   let signed := file.take signedLen
-  check (c.verify (.ecdsa alg) ci.signPub signed sig) .signature
+  check (c.verify (.ecdsa (algOfCoord hl)) ci.signPub signed sig) .signature
   check (b.length == hdr.blockCount * hdr.blockSize) .fileLength
-  -- data blocks
-  let keyBits := if hl = 48 then 256 else 128
-  let kdk := kdf c dev.pck hdr.timestamp dev.rights false keyBits
-  let dec := fun (i : Nat) (p : Bytes) =>
-    if dev.encrypted then cbcDec c (kdf c kdk i dev.rights true keyBits) (zeros 16) p else p
-  let stream ← walk c alg hl dec hdr.blockCount 1 h1 b
-  -- section header | commands | zero padding (less than one block)
+  pure ⟨hdr, hl, h1, obs ++ [⟨hl, ci.signPub, signed, sig⟩], b⟩
+
+def keyBitsOf (hl : Nat) : Nat := if hl = 48 then 256 else 128
+
+/-- payload decryption of block `i`: AES-CBC, zero IV, key derived from the KDK and the block number -/
+def decFn (c : CryptoOps) (dev : Dev) (timestamp hl : Nat) : Nat → Bytes → Bytes :=
+  let kdk := kdf c dev.pck timestamp dev.rights false (keyBitsOf hl)
+  fun i p => if dev.encrypted then cbcDec c (kdf c kdk i dev.rights true (keyBitsOf hl)) (zeros 16) p else p
+
+/-- section header | commands | zero padding (less than one block) -/
+def parseStream (stream : Bytes) : R (List Cmd) := do
   let (uid, s) ← takeU 4 stream
   let (typ, s) ← takeU 4 s
   let (len, s) ← takeU 4 s
@@ -564,8 +574,13 @@ def romLoad (c : CryptoOps) (dev : Dev) (file : Bytes) : R RomOk := do
   check (uid == 1 && typ == 1 && res == 0) .sectionHeader
   let (body, pad) ← takeB len s
   check (allZero pad && pad.length < 256) .padding
-  let cmds ← parseCmds body.length body
-  pure ⟨hdr, cmds, obs ++ [⟨hl, ci.signPub, signed, sig⟩]⟩
+  parseCmds body.length body
+
+def romLoad (c : CryptoOps) (dev : Dev) (file : Bytes) : R RomOk := do
+  let b0 ← parseBlock0 c dev.rotkh file
+  let stream ← walk c (algOfCoord b0.hl) b0.hl (decFn c dev b0.hdr.timestamp b0.hl) b0.hdr.blockCount 1 b0.h1 b0.rest
+  let cmds ← parseStream stream
+  pure ⟨b0.hdr, cmds, b0.obs⟩
 
 /-- byte ranges `(start, length)` of the file that `romLoad` authenticates, in file order: the signed range,
     the signature itself, then every data block (block 1 by the hash in the signed range, block i+1 by the
@@ -574,5 +589,112 @@ def coverage (hdr : Header) (hl : Nat) : List (Nat × Nat) :=
   (0, hdr.totalLength - 2 * hl) :: (hdr.totalLength - 2 * hl, 2 * hl) ::
   (List.range hdr.blockCount).map (fun i => (hdr.totalLength + i * hdr.blockSize, hdr.blockSize))
 
+/-- length of `n` bytes padded to a 16-byte boundary -/
+def a16 (n : Nat) : Nat := n + pad16 n
+
+/-- size of a command in the stream, from the format description -/
+def cmdSize : Cmd → Nat
+  | .erase .. => 32
+  | .load _ d _ => 32 + a16 d.length
+  | .execute _ => 16
+  | .call _ => 16
+  | .progFuses _ d => 16 + a16 d.length
+  | .progIfr _ d => 16 + a16 d.length
+  | .loadCmac _ d _ => 32 + a16 d.length
+  | .copy .. => 32
+  | .loadHashLocking _ d _ => 32 + a16 d.length + 64
+  | .loadKeyBlob _ d _ => 16 + a16 d.length
+  | .configureMemory .. => 16
+  | .fillMemory .. => 32
+  | .fwVersionCheck .. => 16
+  | .reset => 16
+
+/-- length of the plaintext stream: 16-byte section header + commands -/
+def streamLen (cmds : List Cmd) : Nat := 16 + (cmds.map cmdSize).sum
+
 end Rom
+
+/-! # Specification vocabulary (used by Proofs/Sb31.lean and Properties/C05.lean; Props only, nothing executable) -/
+
+namespace Spec
+open Rom
+
+/-- the header a container must carry, in the constants of the format description -/
+def hdrSpec (s : ObjState) : Header :=
+  { flags := s.cfg.flags, blockCount := (streamLen s.cmds + 255) / 256, blockSize := 260 + s.cfg.hashLen,
+    timestamp := s.cfg.timestamp, fwVersion := s.cfg.fwVersion,
+    totalLength := 60 + s.cfg.hashLen + s.cfg.cert.length + 2 * s.cfg.hashLen,
+    imageType := if s.cfg.isNxp then 7 else 6, certOffset := 60 + s.cfg.hashLen,
+    description := adjustDesc s.cfg.description }
+
+/-- (hash of data block 1, the data blocks) of an export whose chain starts from the all-zero hash -/
+def chainOf (c : CryptoOps) (s : ObjState) : Bytes × List Bytes :=
+  buildChain c s (zeros s.cfg.hashLen) 1 (dataBlocks (cmdStream s.cmds))
+
+/-- the signed range: header | hash of block 1 | certificate block -/
+def signedOf (c : CryptoOps) (s : ObjState) : Bytes := encHeader (hdrSpec s) ++ ((chainOf c s).1 ++ s.cfg.cert)
+
+def sigOf (c : CryptoOps) (s : ObjState) (r : Rand) : Bytes :=
+  c.sign (sigAlgOf s.cfg.hashLen) s.cfg.sk (signedOf c s) r
+
+/-- invariants of an object built by `newObj` (kept by every method) -/
+structure Good (c : CryptoOps) (s : ObjState) : Prop where
+  hl : s.cfg.hashLen = 32 ∨ s.cfg.hashLen = 48
+  keyLen : s.keyLen = keyBitsOf s.cfg.hashLen
+  rights : s.cfg.encrypted = true → s.cfg.rights < 4
+  kdk : s.cfg.encrypted = true →
+    s.kdk = deriveKey c s.cfg.pck s.cfg.timestamp s.cfg.rights Generated.Sb31Consts.kdfModeKdk s.keyLen
+
+/-- every header field fits its struct code -/
+structure HeaderWF (h : Header) : Prop where
+  flags : h.flags < 4294967296
+  blockCount : h.blockCount < 4294967296
+  blockSize : h.blockSize < 4294967296
+  timestamp : h.timestamp < 18446744073709551616
+  fwVersion : h.fwVersion < 4294967296
+  totalLength : h.totalLength < 4294967296
+  imageType : h.imageType < 4294967296
+  certOffset : h.certOffset < 4294967296
+  description : h.description.length = 16
+
+/-- what the property assumes about the inputs: fields that fit the format, commands in the domain,
+    signatures of the curve's fixed length (r ‖ s) -/
+structure StateWF (c : CryptoOps) (s : ObjState) : Prop where
+  cmds : ∀ cmd ∈ s.cmds, cmd.wf = true
+  size : (cmdBytes s.cmds).length < 4294967296
+  flags : s.cfg.flags < 4294967296
+  fwVersion : s.cfg.fwVersion < 4294967296
+  timestamp : s.cfg.timestamp < 18446744073709551616
+  cert : s.cfg.cert.length < 4294967000
+  sigLen : ∀ m r, (c.sign (sigAlgOf s.cfg.hashLen) s.cfg.sk m r).length = 2 * s.cfg.hashLen
+
+/-- the device is provisioned for this container: same part common key, access rights and mode; the certificate
+    block is accepted against the fused root-of-trust hash and names the container's signing key -/
+structure DevOK (c : CryptoOps) (dev : Dev) (s : ObjState) (obs : List SigOb) : Prop where
+  pck : dev.pck = s.cfg.pck
+  rights : dev.rights = s.cfg.rights
+  encrypted : dev.encrypted = s.cfg.encrypted
+  cert : romCert c dev.rotkh s.cfg.cert = .ok (⟨c.pubOf s.cfg.sk, s.cfg.hashLen⟩, obs)
+
+/-- block `i` carries its number, the hash of block `i+1` (all zero in the last block) and 256 payload bytes;
+    `Chained i h blocks`: `h` is the hash of the first block of `blocks` (numbered `i`), or zero if there is none -/
+inductive Chained (c : CryptoOps) (alg : HashAlg) (hl : Nat) : Nat → Bytes → List Bytes → Prop where
+  | last (i : Nat) : Chained c alg hl i (zeros hl) []
+  | block (i : Nat) (next payload : Bytes) (rest : List Bytes) :
+      next.length = hl → payload.length = 256 → Chained c alg hl (i + 1) next rest →
+      Chained c alg hl i (c.hash alg (u32 i ++ (next ++ payload))) ((u32 i ++ (next ++ payload)) :: rest)
+
+/-- consecutive ranges `(start, length)` from `a` to `b` -/
+def Tiles : Nat → List (Nat × Nat) → Nat → Prop
+  | a, [], b => a = b
+  | a, p :: rest, b => p.1 = a ∧ Tiles (a + p.2) rest b
+
+/-- the commands a history has added -/
+def addsOf : List Op → List Cmd
+  | [] => []
+  | .add cmd :: ops => cmd :: addsOf ops
+  | .exp _ :: ops => addsOf ops
+
+end Spec
+
 end SpsdkVerif.Sb31
